@@ -25,6 +25,13 @@ SPECIALS = [-0.0, 0.0, 5e-324, -5e-324, 1.7976931348623157e308, -1.7976931348623
             1e22, 123456789.12345679, float(np.nextafter(1.0, 2.0))]
 
 
+
+def ensure_driver():
+    """the commands of C10/C18 live in their own executable (lean/HvsrVerif/Drv/C10.lean); build it under the shared lock"""
+    rc, log = lake(["build", EXE])
+    if rc != 0:
+        raise InfraError("driver build failed:\n" + log[-3000:])
+
 # ----------------------------------------------------------------------------------------------
 # JSON on the wire (same prefix notation as Drv/C10.lean); tuples and lists are both arrays
 def enc_str(s):
@@ -122,6 +129,26 @@ def exec_hist(case, work):
         n_cur = rec.ns.n_samples
         status = "-"
         rr = np.random.default_rng(s)
+        try:
+            rec, status, tok, mut = exec_op(case, rec, kind, u, s, rr, n_cur, dt, work, problems)
+        except Exception as e:   # reported as a disagreement, not a crash of the check
+            status, tok, mut = "exc:" + type(e).__name__, None, False
+        if tok is None:
+            per_op.append([status, -1, "-"])
+            break
+        op_toks.append(tok)
+        mutated = mutated or mut
+        per_op.append([status, int(rec.ns.n_samples), hexf(rec.degrees_from_north)])
+    line = "rec.hist " + " ".join(toks) + f" {len(op_toks)} " + " ".join(op_toks)
+    return line, per_op, rec, problems, mutated
+
+
+def exec_op(case, rec, kind, u, s, rr, n_cur, dt, work, problems):
+    from hvsrpy.seismic_recording_3c import SeismicRecording3C
+    status = "-"
+    mutated = False
+    op_toks = []
+    if True:
         if kind == "trim":
             i0 = int(u[0] * n_cur * 0.6)
             i1 = min(n_cur - 1, i0 + 1 + int(u[1] * (n_cur - i0 - 1))) if n_cur > 1 else 0
@@ -203,9 +230,7 @@ def exec_hist(case, work):
             rec.ns.amplitude, rec.ew.amplitude, rec.vt.amplitude = arrs
             mutated = True
             op_toks.append(f"set {fvec(arrs[0])} {fvec(arrs[1])} {fvec(arrs[2])}")
-        per_op.append([status, int(rec.ns.n_samples), hexf(rec.degrees_from_north)])
-    line = "rec.hist " + " ".join(toks) + f" {len(op_toks)} " + " ".join(op_toks)
-    return line, per_op, rec, problems, mutated
+    return rec, status, op_toks[0], mutated
 
 
 def same_recording(a, b):
@@ -249,7 +274,9 @@ def check_hist(ctx, case, line, per_op, rec, problems, mutated, mo, work):
     if mo["per"] != per_op:
         first = next((i for i, (a, b) in enumerate(zip(per_op, mo["per"])) if a != b), None)
         opk = case["ops"][first][0] if first is not None else "?"
-        clause = {"trim": "trim-keeps-nearest-samples", "orient": "orientation-normalised", "split": "history-correspondence"}.get(opk, "history-correspondence")
+        deg_differs = first is not None and per_op[first][2] != mo["per"][first][2] and per_op[first][:2] == mo["per"][first][:2]
+        clause = "orientation-normalised" if deg_differs else \
+            {"trim": "trim-keeps-nearest-samples", "orient": "orientation-normalised"}.get(opk, "history-correspondence")
         ctx.violation(clause, dict(rp, first_divergent_op=first, op=opk), seam="SeismicRecording3C vs Model.Rec.step")
         return
     ctx.traces += 1
@@ -472,6 +499,8 @@ def impl_trim(case):
         out["contig"] = bool(len(a) and np.array_equal(a, np.arange(a[0], a[-1] + 1)))
     except IndexError:
         out["ts"] = "err index"
+    except Exception as e:
+        out["ts"] = "err " + type(e).__name__
     if case.get("three"):
         rec = SeismicRecording3C(TimeSeries(ramp, dt), TimeSeries(ramp + n, dt), TimeSeries(-ramp, dt))
         try:
@@ -549,6 +578,24 @@ def witness_deg360(work):
     return rec.degrees_from_north, new.degrees_from_north, bool(new == rec)
 
 
+def witness_assumptions(work):
+    """the two inputs excluded by the model's assumptions, observed on the implementation (recorded in the evidence, not violations)"""
+    from hvsrpy.timeseries import TimeSeries
+    from hvsrpy.seismic_recording_3c import SeismicRecording3C
+    fn = os.path.join(work, "wa.json")
+    r = SeismicRecording3C(TimeSeries([1, 2, 3], 0.01), TimeSeries([1, 2, 3], 0.010000001), TimeSeries([1, 2, 3], 0.01))
+    r.save(fn)
+    l = SeismicRecording3C.load(fn)
+    x = np.array([np.nan, -np.nan, np.inf, -np.inf, 1.0])
+    r2 = SeismicRecording3C(TimeSeries(x, 0.5), TimeSeries(x, 0.5), TimeSeries(x, 0.5))
+    r2.save(fn)
+    l2 = SeismicRecording3C.load(fn)
+    os.remove(fn)
+    return dict(component_dt=dict(ew_dt_before=r.ew.dt_in_seconds, ew_dt_after_load=l.ew.dt_in_seconds),
+                non_finite=dict(inf_bit_exact=bits(r2.ns.amplitude[2:4]) == bits(l2.ns.amplitude[2:4]),
+                                nan_sign_bit_kept=bits(r2.ns.amplitude[:2]) == bits(l2.ns.amplitude[:2])))
+
+
 def run(ctx):
     ctx.rule = ("(a) histories of 1-8 operations (trim incl. refusals, detrend, Tukey window, Butterworth filter, orient_sensor_to with angles in [-720,1080], "
                 "split and continue on a window, copy constructor, save/load, direct sample assignment) on recordings with 8-160 samples, dyadic and "
@@ -560,7 +607,9 @@ def run(ctx):
                     "numpy: np.array(x) copies, basic slicing returns a view (the location model's two primitives; both are probed with np.shares_memory)",
                     "scipy Butterworth filter and Tukey window are opaque sample transformers in the state machine (arbitrary f in the theorems)"]
     ctx.assumptions += ["the three components of a recording carry one time step (the constructor accepts |dt_i - dt_ns| <= 1e-8 and _to_dict stores ns's)",
-                        "meta values are JSON-representable with string keys; tuples and lists are the same content"]
+                        "meta values are JSON-representable with string keys; tuples and lists are the same content",
+                        "samples are finite or +-inf (the sign bit of a NaN does not survive JSON's 'NaN' token)"]
+    ensure_driver()
     rng = np.random.default_rng(ctx.seed)
     work = os.path.join(WORK, "c18")
     os.makedirs(work, exist_ok=True)
@@ -595,7 +644,16 @@ def _run(ctx, rng, work):
             lines.append(line)
             extra.append((per_op, rec, problems, mutated))
         elif c["kind"] == "alias":
-            res = alias_probe(ctx, rng, c)
+            try:
+                res = alias_probe(ctx, rng, c)
+            except Exception as e:
+                ctx.violation("copies-share-no-sample-storage", dict(case=c, why="probe raised " + type(e).__name__ + ": " + str(e)[:200]),
+                              seam="aliasing probe")
+                res = None
+            if res is None:
+                lines.append("alias 8 1 0 1")
+                extra.append(None)
+                continue
             # the model is asked about the recording as it is after the pre-history
             lines.append(f"alias {res['n']} {res['k']} {min(c['s'], res['n'] - 2) if res['n'] >= 4 else 0} {min(c['e'], res['n'] - 1) if res['n'] >= 4 else 1}")
             extra.append(res)
@@ -612,6 +670,8 @@ def _run(ctx, rng, work):
             for o, st in zip(c["ops"], per_op):
                 ctx.count("op:" + o[0] + ("" if st[0] == "-" else ":refused"))
             check_hist(ctx, c, ln, per_op, rec, problems, mutated, parse_hist(ln), work)
+        elif c["kind"] == "alias" and ex is None:
+            ctx.case(("alias", c["n"], c["k"], c["dt"], c["deg"], c["pre_ops"], c["sseed"]), True)
         elif c["kind"] == "alias":
             ctx.case(("alias", c["n"], c["k"], c["dt"], c["deg"], c["pre_ops"], c["sseed"]), True,
                      sample=dict(case=c, flags=ex["flags"], trim_view=ex["trim_view"]))
@@ -628,6 +688,7 @@ def _run(ctx, rng, work):
     ctx.supporting["witness_deg_-1e-20"] = dict(before=d0, after_load=d1, eq=eq)
     if not (d0 == d1 or (d0 == 360.0 and d1 == 0.0)):
         ctx.violation("save-load-restores-everything", dict(case=dict(kind="witness_deg360"), before=d0, after=d1), seam="SeismicRecording3C.save/load")
+    ctx.supporting["witness_outside_model_assumptions"] = witness_assumptions(work)
     if d0 != d1:
         ctx.notes.append("orient_sensor_to(-1e-20) stores degrees_from_north = 360.0 (float rounding of d - 360*floor(d/360)); after save/load it is 0.0 "
                          "(same orientation modulo 360, but outside [0,360) and loaded != original under __eq__)")
